@@ -492,5 +492,66 @@ def aux_c06(tier, seed):
 AUX["C06"] = aux_c06
 FLOORS["C06"] = {"judged_single_access_transfers": 3000, "tearing_reads": 1_000_000, "distinct_nontrivial": 10_000}
 
+# ----------------------------------------------------------------------------------------------
+prop("C08", level="model_checking",
+     title="A dirty mark is never lost when marking races with harvesting the bitmap",
+     technique="stateless model checking of the real code under a controlled scheduler: a cfg-guarded shim (hook H2) puts a yield point in front of every atomic operation on the bitmap words, exactly one managed thread runs between two yield points, and ALL interleavings of each catalogue program are executed (DFS over choice strings with prefix replay); each execution's API-boundary history is checked for per-page linearizability against a boolean with set / clear / test-and-clear / read plus a quiescent final read; seeded random schedules for larger programs; free-running threads natively, under TSan and under Miri many-seeds",
+     rule="states = scheduler decision points, transitions = atomic steps granted; programs: 12 catalogue programs of 2..3 threads on pages that share one 64-bit word or span two (two markers + harvester, marker range vs harvester, markers + clone, marker spanning words, marker vs reset_range vs harvester, set_bit vs reset_bit, marker vs two harvesters, mark_dirty vs harvest vs is_bit_set, three markers, marker vs reset(), re-mark after harvest, range mark vs range reset) - every interleaving of each is executed (29 147 schedules); random 3-thread programs of up to 12 calls under seeded PCT-style schedules; 2x10^3..10^5 free-running histories. An execution is non-trivial when two different threads touch the same word back-to-back",
+     exhaustive_note="all interleavings (at the granularity of whole atomic operations, sequentially consistent) of the 12 catalogue programs",
+     assumptions=["interleavings are explored at atomic-operation granularity under sequential consistency; weaker-than-SC effects are left to Miri's weak-memory emulation and TSan", "the linearizability checker (60 lines, brute force with memoisation, <= 24 operations per page) is trusted", "reset() is modelled as a per-page clear (it is documented as not harvesting)"],
+     level_text="Exhaustive exploration of all interleavings of bounded concurrent programs executed on the real implementation (not a model), with a linearizability oracle per execution; sampling beyond the catalogue.",
+     level_note="Bounded programs only; the yield points exist only in --cfg vm_memory_verif builds (the shim forwards to std's AtomicU64 with the caller's ordering).",
+     design_ref="DESIGN.md §7 C08")
+
+
+@plan("C08")
+def plan_c08(tier, seed):
+    if tier == "quick":
+        runs = shards("std-debug", "c08", 12, ["mode=dfs", "seed=%d" % seed], timeout=900)
+        runs.append(Run("std-debug", "c08", ["mode=sample", "seed=%d" % seed, "cases=3000"], timeout=600))
+        runs.append(Run("std-release", "c08", ["mode=free", "seed=%d" % seed, "iters=20000"], timeout=600))
+        runs.append(Run("miri", "c08", ["mode=free", "seed=%d" % seed, "iters=4"], timeout=900, miri_flags="-Zmiri-many-seeds=0..16"))
+        return runs
+    runs = shards("std-debug", "c08", 12, ["mode=dfs", "seed=%d" % seed], timeout=3000)
+    runs += shards("std-release", "c08", 12, ["mode=dfs", "seed=%d" % seed], timeout=3000)
+    runs += shards("std-debug", "c08", 8, ["mode=sample", "seed=%d" % seed, "cases=200000"], timeout=3400)
+    runs += shards("std-release", "c08", 4, ["mode=free", "seed=%d" % seed, "iters=400000"], timeout=3400)
+    runs += shards("tsan", "c08", 4, ["mode=free", "seed=%d" % (seed + 1), "iters=200000"], timeout=3400)
+    for rate in ("", " -Zmiri-preemption-rate=0.05", " -Zmiri-preemption-rate=0.2"):
+        runs.append(Run("miri", "c08", ["mode=free", "seed=%d" % seed, "iters=12"], timeout=3400, miri_flags="-Zmiri-many-seeds=0..256" + rate))
+    return runs
+
+
+FLOORS["C08"] = {"schedules_explored": 29_000, "programs_exhausted": 12, "schedules_with_cross_thread_contention_on_one_word": 20_000, "free_histories": 5000}
+
+# ----------------------------------------------------------------------------------------------
+prop("C11", level="exploration",
+     title="A memory-map snapshot stays whole and usable while the map is being replaced",
+     technique="event-log monitor with generation tags and a logical clock: every published map is {base region, tag region whose address and first/last bytes encode its generation}; readers stamp a clock before memory(), updaters after replace() returns; offline checks: whole (list and tag bytes agree on one generation), stable while held (guard, clone, into_inner, across replacements), real-time order, per-reader monotonicity, in-lock counter <= 1, final generation == completed replacements, Weak handles of replaced maps die exactly when unreferenced; sequential model check over several cloned handles, oversubscribed native stress, TSan, Miri many-seeds (preempts inside lock/replace/arc-swap)",
+     rule="cases = histories. Sequential: 10..60 steps over 3 cloned handles (snapshot, owned snapshot, clone of snapshot, lock+replace deriving the next generation by remove+insert, lock+unlock, drop) with a model of the current generation and of which generations must be alive. Stress: rounds of 24 readers x 200 snapshots + 8 updaters x 40 replacements (Miri: 2+2 threads, 3/2 operations) with yields at the harness boundary. distinct key = (mode, reader action, replacements spanned while held, generation lag); non-trivial = the snapshot was held across >= 1 replacement or re-read",
+     assumptions=["no hook inside src/atomic.rs / arc-swap: native runs sample schedules, the narrow windows inside replace()/lock() are reached by Miri's scheduler for small programs only", "tag bytes are written with atomic store(Release) before publishing and read with load(Acquire), so guest bytes are not a race for TSan"],
+     level_text="Offline trace checks over sampled schedules (native oversubscription, TSan, Miri) plus a deterministic sequential model check; held-on-observed.",
+     level_note="Schedules are sampled, not enumerated.",
+     design_ref="DESIGN.md §7 C11")
+
+
+@plan("C11")
+def plan_c11(tier, seed):
+    if tier == "quick":
+        return [Run("std-debug", "c11", ["mode=all", "seed=%d" % seed, "cases=1500", "rounds=40"], timeout=600),
+                Run("std-release", "c11", ["mode=stress", "seed=%d" % (seed + 1), "rounds=150"], timeout=600),
+                Run("miri", "c11", ["mode=stress", "seed=%d" % seed, "rounds=1"], timeout=900, miri_flags="-Zmiri-many-seeds=0..16"),
+                Run("miri", "c11", ["mode=seq", "seed=%d" % seed, "cases=3"], timeout=900)]
+    runs = [Run("std-debug", "c11", ["mode=all", "seed=%d" % seed, "cases=100000", "rounds=2000"], timeout=3400)]
+    runs += shards("std-release", "c11", 4, ["mode=stress", "seed=%d" % (seed + 1), "rounds=20000"], timeout=3400)
+    runs.append(Run("tsan", "c11", ["mode=stress", "seed=%d" % (seed + 2), "rounds=2000"], timeout=3400))
+    for rate in ("", " -Zmiri-preemption-rate=0.05", " -Zmiri-preemption-rate=0.2"):
+        runs.append(Run("miri", "c11", ["mode=stress", "seed=%d" % seed, "rounds=1"], timeout=3400, miri_flags="-Zmiri-many-seeds=0..128" + rate))
+    runs += shards("miri", "c11", 8, ["mode=seq", "seed=%d" % seed, "cases=64"], timeout=3400)
+    return runs
+
+
+FLOORS["C11"] = {"stress_events": 50_000, "snapshots_held_across_replacements": 1000, "distinct_nontrivial": 15}
+
 # properties that are (currently) not claimed, with the reason recorded in MANIFEST.json
 NOT_CLAIMED = {}
